@@ -373,6 +373,10 @@ theorem SInv.set_rb {st : St} (inv : SInv st) (k : Nat) (b' : RBObj) (h : b'.fre
   · simp only [hkj, if_false] at hb
     exact inv.rb_rc j b hb hf
 
+theorem SInv.set_penx {st : St} (inv : SInv st) (x : Array PenX) : SInv { st with penx := x } :=
+  ⟨inv.tinv, inv.wx_size, inv.rc, List.nodup_nil, by intro i hi; simp at hi, inv.dead_pen,
+    ⟨inv.pens.rc, inv.pens.ex⟩, inv.term_held, inv.term_free, inv.term_dead, inv.rb_rc⟩
+
 theorem SInv.set_strs {st : St} (inv : SInv st) (s : Array StrObj) : SInv { st with strs := s } :=
   ⟨inv.tinv, inv.wx_size, inv.rc, List.nodup_nil, by intro i hi; simp at hi, inv.dead_pen,
     ⟨inv.pens.rc, inv.pens.ex⟩, inv.term_held, inv.term_free, inv.term_dead, inv.rb_rc⟩
@@ -571,7 +575,7 @@ theorem step_plain_ok {cfg : Cfg} (R : Repaired cfg) {st : St} (inv : SInv st) (
       · simp only [pure_ok, bind_ok]; exact ⟨_, _, rfl, inv.setX_same w _ rfl⟩
       · simp only [pure_ok, bind_ok]; exact ⟨_, _, rfl, inv.setX_same w _ rfl⟩
     · simp only [hu, Bool.not_false, if_true, skipR, pure_ok]; exact ⟨_, _, rfl, inv⟩
-  case pen => exact ⟨_, _, rfl, pen_new_ok inv⟩
+  case pen => exact ⟨_, _, rfl, (pen_new_ok inv).set_penx _⟩
   case pref k =>
     by_cases hh : heldP st k = true
     · simp only [hh, Bool.not_true, Bool.false_eq_true, if_false]
@@ -585,10 +589,6 @@ theorem step_plain_ok {cfg : Cfg} (R : Repaired cfg) {st : St} (inv : SInv st) (
       obtain ⟨st', h1, inv'⟩ := punref_ok inv hh
       simp only [okR, h1, bind_ok, pure_ok]
       exact ⟨_, _, rfl, inv'⟩
-    · simp only [hh, Bool.not_false, if_true, skipR, pure_ok]; exact ⟨_, _, rfl, inv⟩
-  case pset k =>
-    by_cases hh : heldP st k = true
-    · simp only [hh, Bool.not_true, Bool.false_eq_true, if_false, pure_ok]; exact ⟨_, _, rfl, inv⟩
     · simp only [hh, Bool.not_false, if_true, skipR, pure_ok]; exact ⟨_, _, rfl, inv⟩
   case setpen w p =>
     by_cases hu : usableW st w = true
